@@ -1042,6 +1042,181 @@ def shrink_ks(c):
 
 
 # ----------------------------------------------------------------------------------------------
+# resample
+# ----------------------------------------------------------------------------------------------
+def gen_res(rng, tier, scale):
+    cases = []
+    k = (320 if tier == "quick" else 7000) * scale
+    for _ in range(k):
+        r = rng.random()
+        order = rng.choice([1, 1, 2, 3, 3, 4, 5]) if r > 0.04 else 0
+        need = order // 2 + 1
+        L = rng.choice([need, need + 1, need + 2, rng.randint(need, 12), rng.randint(need, 30)])
+        if rng.random() < 0.02:
+            L = rng.randint(0, need - 1)                   # shorter than half a window (D1 territory)
+        exact = rng.random() < 0.6
+        sig = [dyadic(rng) for _ in range(L)]
+        n = rng.choice([1, 3, 8, 20, 60, 120])
+        if exact:
+            sts = [rng.choice(["F", "i"]) if x.denominator == 1 else "F" for x in sig]
+            zero = {"v": enc(rng.choice([F(0), F(0), dyadic(rng)])), "t": "F"}
+            if zero["v"] == 0 and rng.random() < 0.5:
+                zero["t"] = "i"
+            mk = lambda: F(rng.randint(0, 24), rng.choice([1, 2, 3, 4, 5, 6, 7, 8, 12]))
+        else:
+            sts = [typ_for(x, rng) for x in sig]
+            zero = {"v": enc(rng.choice([F(0), F(0), dyadic(rng)])), "t": "f"}
+            mk = lambda: F(rng.randint(0, 48), rng.choice([1, 2, 4, 8, 16]))
+        c = {"entry": "resample", "sig": [enc(x) for x in sig], "sts": sts, "order": order, "zero": zero,
+             "n": n, "exact": exact, "sig_kind": rng.choice(["list", "iter", "Stream", "tuple"])}
+        if rng.random() < 0.25:
+            steps = [mk() for _ in range(rng.choice([0, 1, 3, 8, 20, 40]))]
+            c["steps"] = [enc(x) for x in steps]          # old = Stream(steps), new = 1
+        else:
+            st = mk()
+            while st == 0 and rng.random() < 0.8:
+                st = mk()
+            if exact:
+                new = F(rng.randint(1, 9), rng.choice([1, 2, 3]))
+                c["old"] = {"v": enc(st * new), "t": "F"}
+                c["new"] = {"v": enc(new), "t": rng.choice(["F", "i"]) if new.denominator == 1 else "F"}
+            else:
+                new = F(2) ** rng.randint(-2, 3)
+                c["old"] = num(rng, st * new)
+                c["new"] = num(rng, new)
+        if rng.random() < 0.15 and "old" in c and order == 3 and dec(zero["v"]) == 0 and zero["t"] == "f":
+            c["defaults"] = True                            # resample(sig, old, new): order=3, zero=0.
+        cases.append(c)
+    return cases
+
+
+def res_step(c):
+    if "steps" in c:
+        return {"strm": c["steps"]}
+    return {"num": enc(qv(c["old"]) / qv(c["new"]))}
+
+
+def impl_res(c):
+    from audiolazy import resample, Stream
+    sig = [py(v, t) for v, t in zip(c["sig"], c["sts"])]
+    k = c["sig_kind"]
+    sig = iter(sig) if k == "iter" else Stream(sig) if k == "Stream" else tuple(sig) if k == "tuple" else sig
+    try:
+        if "steps" in c:
+            t = "F" if c["exact"] else "f"
+            s = resample(sig, old=Stream([py(v, t) for v in c["steps"]]), new=1, order=c["order"], zero=pv(c["zero"]))
+        elif c.get("defaults"):
+            s = resample(sig, pv(c["old"]), pv(c["new"]))
+        else:
+            s = resample(sig, old=pv(c["old"]), new=pv(c["new"]), order=c["order"], zero=pv(c["zero"]))
+    except Exception as e:
+        return {"out": [], "end": err_kind(e)}
+    out, end = drain(s, c["n"])
+    return {"out": [enc(x) for x in out], "end": end}
+
+
+def req_res(c):
+    return {"entry": "resample", "sig": c["sig"], "step": res_step(c), "order": c["order"],
+            "zero": c["zero"]["v"], "n": c["n"]}
+
+
+def cmp_res(c, io, drv):
+    res = []
+    got = [dec(x) for x in io["out"]]
+    sp = [dec(x) for x in drv["spec"]["out"]]
+    # an end that coincides with the last sample read cannot be observed
+    sp_end = "stop" if drv["spec"]["ended"] and len(sp) < c["n"] else "fuel"
+    as_spec = same_vals(got, sp, c["exact"]) and io["end"] == sp_end
+    m = drv["model"]
+    if drv["short"]:
+        # fewer input samples than rint(threshold): Stream.take raises RuntimeError today (D1);
+        # the window is not modelled there
+        as_coded = got == [] and io["end"] == "RuntimeError"
+    elif "err" in m:
+        as_coded = got == [] and io["end"] == m["err"]
+    else:
+        mod = [dec(x) for x in m["out"]]
+        same = same_vals(got, mod, c["exact"])
+        if m["end"] == "fuel" or len(mod) == c["n"]:
+            as_coded = same and io["end"] == "fuel"
+        else:
+            # `next(isig)` / `next(step)` raises StopIteration inside the generator: RuntimeError
+            # under PEP 479 (as coded); a clean end is the intended behaviour (= spec)
+            as_coded = same and io["end"] in ("RuntimeError", "stop")
+    if not (as_coded or as_spec):
+        res.append(("model", "resample: impl=%s/%s model=%s" % (io["out"], io["end"], m)))
+    if not as_spec:
+        res.append(("spec", "resample: impl=%s/%s spec=%s/%s" % (io["out"], io["end"], drv["spec"]["out"], sp_end)))
+    return res
+
+
+def tally_res(eng, c, io):
+    eng.count("res_order", c["order"])
+    eng.count("res_regime", "exact" if c["exact"] else "float")
+    eng.count("res_step", "stream" if "steps" in c else
+              ("=1" if qv(c["old"]) == qv(c["new"]) else ("0" if qv(c["old"]) == 0 else
+               ("<1" if qv(c["old"]) < qv(c["new"]) else ">1"))))
+    eng.count("res_end", io["end"])
+    eng.count("res_outputs", min(len(io["out"]) // 10 * 10, 60))
+
+
+def classify_res(c, io, drv):
+    short = len(c["sig"]) < c["order"] // 2 + 1
+    if io["end"] == "TypeError" and c["order"] == 0:
+        return "resample:order=0:TypeError"
+    if io["end"] == "RuntimeError":
+        if short:
+            return "resample:input-shorter-than-half-window:RuntimeError"
+        if len(io["out"]) == len(drv["spec"]["out"]) and drv["spec"]["ended"]:
+            return "resample:end-of-%s:RuntimeError" % ("input" if drv["model"].get("end") != "step" else "step-stream")
+        return "resample:RuntimeError:early"
+    if io["end"] not in ("stop", "fuel"):
+        return "resample:" + io["end"]
+    if short:
+        return "resample:input-shorter-than-half-window:values"
+    return "resample:length" if len(io["out"]) != len(drv["spec"]["out"]) else "resample:values"
+
+
+def shrink_res(c):
+    if c["n"] > 1:
+        yield dict(c, n=c["n"] - 1)
+        yield dict(c, n=c["n"] // 2)
+    sig = c["sig"]
+    if len(sig) > c["order"] // 2 + 1:
+        yield dict(c, sig=sig[:-1], sts=c["sts"][:-1])
+        yield dict(c, sig=sig[1:], sts=c["sts"][1:])
+    yield dict(c, sig=[2 ** i for i in range(len(sig))], sts=["i" if c["exact"] else "f"] * len(sig))
+    if c["sig_kind"] != "list":
+        yield dict(c, sig_kind="list")
+    if c["order"] > 1 and not c.get("defaults"):
+        yield dict(c, order=c["order"] - 1)
+    if "steps" in c:
+        if c["steps"]:
+            yield dict(c, steps=c["steps"][:-1])
+        if c["steps"] and len(set(c["steps"])) == 1:
+            d = {k: v for k, v in c.items() if k != "steps"}
+            d["old"] = {"v": c["steps"][0], "t": "F" if c["exact"] else "f"}
+            d["new"] = {"v": 1, "t": "i"}
+            if not c["exact"] and not is_dyadic(dec(c["steps"][0])):
+                return
+            yield d
+    else:
+        q = qv(c["old"]) / qv(c["new"])
+        for r in (F(1), F(1, 2), F(2), F(int(q))):
+            if r != q and r > 0:
+                yield dict(c, old={"v": enc(r), "t": "F" if c["exact"] else "f"}, new={"v": 1, "t": "i"})
+    if dec(c["zero"]["v"]) != 0:
+        yield dict(c, zero=dict(c["zero"], v=0))
+
+
+def neigh_res(c):
+    yield dict(c, n=c["n"] + 10)
+    if c["order"] < 5 and not c.get("defaults"):
+        yield dict(c, order=c["order"] + 1, sig=c["sig"] + [1], sts=c["sts"] + [c["sts"][-1] if c["sts"] else "F"])
+    yield dict(c, sig=c["sig"] + [3], sts=c["sts"] + [c["sts"][-1] if c["sts"] else "F"])
+
+
+# ----------------------------------------------------------------------------------------------
 # dispatch
 # ----------------------------------------------------------------------------------------------
 ENTRIES = {
@@ -1057,6 +1232,8 @@ ENTRIES = {
                        neigh=neigh_table, classify=classify_table, request=req_table),
     "sinusoid": dict(gen=gen_sin, impl=impl_sin, cmp=cmp_sin, tally=tally_sin, shrink=shrink_sin,
                      request=req_sin),
+    "resample": dict(gen=gen_res, impl=impl_res, cmp=cmp_res, tally=tally_res, shrink=shrink_res,
+                     neigh=neigh_res, classify=classify_res, request=req_res),
     "karplus": dict(gen=gen_ks, impl=impl_ks, cmp=cmp_ks, tally=tally_ks, shrink=shrink_ks, request=req_ks),
 }
 for _alias, _of in (("table_getitem", "table_call"), ("fadein", "line"), ("fadeout", "line"), ("zeros", "ones"), ("zeroes", "ones"),
